@@ -448,8 +448,9 @@ func (x *Exec) writeRange(st *State, reg, base *Term, src StrVal, n *Term) {
 		cur := old
 		for i := int64(0); i < b.hi.Int64(); i++ {
 			// value-level conditional: beyond n the old byte is written back
+			// (array-level conditional: measured to be much easier for the solvers than a value-level one)
 			at := o.IdxAdd(base, o.Idx(i))
-			cur = o.Store(cur, at, o.Ite(o.IdxLt(o.Idx(i), n), o.SelByte(src.Arr, o.IdxAdd(src.Off, o.Idx(i))), o.SelByte(old, at)))
+			cur = o.Ite(o.IdxLt(o.Idx(i), n), o.Store(cur, at, o.SelByte(src.Arr, o.IdxAdd(src.Off, o.Idx(i)))), cur)
 		}
 		st.H = o.Store(st.H, reg, cur)
 		return
